@@ -442,9 +442,25 @@ def r4_samplers(check, prog):
     # (f) the returned value is the loop's array (or its only element)
     ret = res.ret
     lt = [x for x in subterms(ret) if x[0] == 'loop' and x[1] == vname]
-    check.require(bool(lt), 'R4-returns-accepted-values', construct,
-                  'the value returned is the array left by the rejection loop', loc,
-                  fail_detail='returns %s' % show(ret)[:160])
+    # every returning path hands back that array (or its single element): a path
+    # that returns draws which never went through the rejection leaves the
+    # support
+    leaves = []
+    for o in res.returns:
+        stack = [o.value]
+        while stack:
+            x = stack.pop()
+            if x[0] == 'ite':
+                stack += [x[2], x[3]]
+            else:
+                leaves.append(x)
+    okr = bool(lt) and bool(leaves) and all(
+        x == lt[0] or (x[0] == 'idx' and x[1] == lt[0] and x[2] == num(0))
+        for x in leaves)
+    check.require(okr, 'R4-returns-accepted-values', construct,
+                  'every value returned is the array left by the rejection loop (or '
+                  'its only element)', loc,
+                  fail_detail='returns %s' % [show(x)[:80] for x in leaves][:4])
 
 
 # ----------------------------------------------------------------------
